@@ -141,7 +141,7 @@ func c13URLs(thorough bool) []string {
 	rng := verifRand()
 	n := 2200
 	if thorough {
-		n = 120000
+		n = 40000
 	}
 	pick := func(l []string) string { return l[rng.Intn(len(l))] }
 	for i := 0; i < n; i++ {
@@ -233,7 +233,7 @@ func lastLabelNumeric(h string) bool {
 }
 
 func TestVerif_C13(t *testing.T) {
-	res := newVerifResult("redirect_uri strings from an adversarial URL grammar (scheme x userinfo x host x port x path x query, biased to one defect per URL; 2200 quick / 120000 thorough, plus a fixed list) x 12 client configurations (domains only, patterns only, both, none, leading-dot domain, two domains, empty domain, unanchored pattern, and four with patterns the regexp library refuses: alone, with domains, before and after a usable one); CanRedirectToURL, CorsOriginAllowed, generic CORS check and GET /idp/oauth2/authorize; non-trivial = url.Parse accepted the string with scheme https; distinct by (url, verdict vector)")
+	res := newVerifResult("redirect_uri strings from an adversarial URL grammar (scheme x userinfo x host x port x path x query, biased to one defect per URL; 2200 quick / 40000 thorough, plus a fixed list) x 12 client configurations (domains only, patterns only, both, none, leading-dot domain, two domains, empty domain, unanchored pattern, and four with patterns the regexp library refuses: alone, with domains, before and after a usable one); CanRedirectToURL, CorsOriginAllowed, generic CORS check and GET /idp/oauth2/authorize; non-trivial = url.Parse accepted the string with scheme https; distinct by (url, verdict vector)")
 	configs := []c13Config{
 		{"domains", []string{"example.com"}, nil},
 		{"patterns", nil, []string{`^https://[^/@?#\\]*\.example\.com(:[0-9]+)?(/[^?#]*)?$`}},
@@ -406,12 +406,34 @@ func TestVerif_C13(t *testing.T) {
 	sb.WriteString("Fixpoint zip3 {A B : Type} (c : list (list bs * nat)) (r : list A) (o : list B) : list (list bs * nat * A * B) := match c, r, o with x :: c', a :: r', b :: o' => (x, a, b) :: zip3 c' r' o' | _, _, _ => [] end.\n")
 	sb.WriteString("Definition ob_eqb (a b : option bool) : bool := match a, b with Some x, Some y => Bool.eqb x y | None, None => true | _, _ => false end.\n")
 	sb.WriteString("Definition c13_bad (c : option parsed * list (list pres) * list (option bool) * list bool * bool) : bool :=\n  let '(p, res, obs, cors, generic) := c in\n  negb (Nat.eqb (length res) (length configs)) || negb (Nat.eqb (length obs) (length configs))\n  || negb (forallb (fun x : list bs * nat * list pres * option bool => let '(cfg, pats, o) := x in Nat.eqb (length pats) (snd cfg) && ob_eqb (can_redirect_p (fst cfg) pats p) o) (zip3 configs res obs))\n  || negb (forallb (fun x : list bs * nat * list pres * bool => let '(cfg, _, o) := x in Bool.eqb (cors_allowed (fst cfg) p) o) (zip3 configs res cors))\n  || negb (Bool.eqb (cors_allowed all_domains p) generic).\n")
-	sb.WriteString("Definition cases : list (option parsed * list (list pres) * list (option bool) * list bool * bool) := [\n " + strings.Join(cases, ";\n ") + "].\n")
-	sb.WriteString("Definition pcases : list (bs * bool * option parsed) := [\n " + strings.Join(pcases, ";\n ") + "].\n")
-	sb.WriteString("Definition c13_split_mismatches := Eval vm_compute in mismatches split_bad pcases.\nPrint c13_split_mismatches.\n")
-	sb.WriteString("Definition c13_split_accepted := Eval vm_compute in length (filter (fun c : bs * bool * option parsed => match plain_split (fst (fst c)) with Some _ => true | None => false end) pcases).\nPrint c13_split_accepted.\n")
+	// sharded: one list literal of tens of thousands of records overflows coqc's stack (thorough tier)
+	const c13Shard = 2000
+	var mparts, lparts []string
+	for i := 0; i < len(cases); i += c13Shard {
+		end := i + c13Shard
+		if end > len(cases) {
+			end = len(cases)
+		}
+		name := fmt.Sprintf("cases%d", i/c13Shard)
+		sb.WriteString("Definition " + name + " : list (option parsed * list (list pres) * list (option bool) * list bool * bool) := [\n " + strings.Join(cases[i:end], ";\n ") + "].\n")
+		mparts = append(mparts, fmt.Sprintf("mismatches_from c13_bad %s %d", name, i))
+		lparts = append(lparts, "length "+name)
+	}
+	var pm, pa []string
+	for i := 0; i < len(pcases); i += c13Shard {
+		end := i + c13Shard
+		if end > len(pcases) {
+			end = len(pcases)
+		}
+		name := fmt.Sprintf("pcases%d", i/c13Shard)
+		sb.WriteString("Definition " + name + " : list (bs * bool * option parsed) := [\n " + strings.Join(pcases[i:end], ";\n ") + "].\n")
+		pm = append(pm, fmt.Sprintf("mismatches_from split_bad %s %d", name, i))
+		pa = append(pa, "length (filter (fun c : bs * bool * option parsed => match plain_split (fst (fst c)) with Some _ => true | None => false end) "+name+")")
+	}
+	sb.WriteString("Definition c13_split_mismatches := Eval vm_compute in (" + strings.Join(pm, " ++ ") + ")%list.\nPrint c13_split_mismatches.\n")
+	sb.WriteString("Definition c13_split_accepted := Eval vm_compute in (" + strings.Join(pa, " + ") + ")%nat.\nPrint c13_split_accepted.\n")
 	ioutil.WriteFile(filepath.Join(verifOut(), "CasesC13split.idx"), []byte(strings.Join(pidx, "\n")), 0644)
-	sb.WriteString("Definition c13_mismatches := Eval vm_compute in mismatches c13_bad cases.\nPrint c13_mismatches.\nDefinition c13_ncases := Eval vm_compute in length cases.\nPrint c13_ncases.\n")
+	sb.WriteString("Definition c13_mismatches := Eval vm_compute in (" + strings.Join(mparts, " ++ ") + ")%list.\nPrint c13_mismatches.\nDefinition c13_ncases := Eval vm_compute in (" + strings.Join(lparts, " + ") + ")%nat.\nPrint c13_ncases.\n")
 	if err := ioutil.WriteFile(filepath.Join(verifOut(), "CasesC13.v"), []byte(sb.String()), 0644); err != nil {
 		t.Fatal(err)
 	}
